@@ -4,6 +4,8 @@ theorems: coq/Properties/C18.v; tie: translator + correspondence (this file)."""
 import inspect
 import json
 import math
+import os
+import re
 import warnings
 from datetime import datetime, timezone
 from fractions import Fraction
@@ -345,7 +347,8 @@ def stream_bins(run, only=None):
             run.dist("bins_region", "nan" if T != T else ("on endpoint" if on_edge else "bin %d" % region))
             msg = bins_oracle(T, e, brow)
             if msg:
-                run.violation({"stream": "bins", "broken": msg.split(",")[0].split(" holds")[0][:40], "on_endpoint": on_edge},
+                run.violation({"stream": "bins", "broken": re.sub(r"[-+]?[0-9][0-9.e+-]*|nan|inf", "#", msg.split(",")[0].split(" holds")[0])[:40],
+                               "on_endpoint": on_edge, "n_endpoints": min(len(e), 2)},
                               "C18 bin features, endpoints %s, T=%r: %s" % (e, T, msg),
                               case={"stream": "bins", "endpoints": e, "temperatures": [None if T != T else T]},
                               observation={"bins": brow}, expected="sum(bins) == T, bins filled in order up to their widths",
@@ -693,6 +696,35 @@ def stream_fit(run, seed):
 
 # ------------------------------------------------------------------ main
 
+PROP = "Properties/C18.v"
+PROOFS = ["Proofs/CalTrackProofs.v", "Proofs/CalTrackTableProofs.v"]
+
+
+def table_free_theorems(run):
+    """The build of the property failed (a table theorem no longer holds of the regenerated tables, or the translator
+    refused the source). The theorems that do not look inside the tables -- those proved by a lemma of
+    Proofs/CalTrackProofs.v -- are re-checked on their own, so that the evidence says what this run did establish."""
+    src = open(vlib.COQ + "/" + PROP).read()
+    lemmas = set(re.findall(r"^\s*Lemma\s+(\w+)", open(vlib.COQ + "/" + PROOFS[0]).read(), re.M))
+    thms = re.findall(r"^\s*(?:Theorem|Example)\s+(\w+)(.*?)Qed\.", src, re.M | re.S)
+    free = [n for n, body in thms if (re.search(r"Proof\.(?:\s*intros[^.]*\.)?\s*exact\s*\(?\s*(\w+)", body) or [None, None])[1] in lemmas]
+    with vlib.Lock(True):
+        for ext in (".vo", ".vos", ".vok", ".glob"):
+            try:
+                os.remove(vlib.COQ + "/" + PROOFS[0][:-2] + ext)
+            except OSError:
+                pass
+        rc, out = vlib.sh("timeout 600 make %s" % (PROOFS[0][:-2] + ".vo"), cwd=vlib.COQ, timeout=660)
+    run.cov["obligations"] = max(run.cov["obligations"], len(thms))
+    run.cov["theorems"] = [n for n, _ in thms]
+    run.cov["discharged"] = len(free) if rc == 0 else 0
+    run.cov["discharged_note"] = ("the property file did not build on this run; counted as discharged are the %d theorems proved by "
+                                  "lemmas of %s (bins, occupancy, hour of week), which was re-checked on its own%s"
+                                  % (len(free), PROOFS[0], "" if rc == 0 else " -- and failed too"))
+    if not run.cov.get("checker_cmd"):
+        run.cov["checker_cmd"] = "cd /verif/coq && make %s (translator failed: the table theorems were not re-checked)" % (PROOFS[0][:-2] + ".vo")
+    run.log("property file did not build; table-free theorems re-checked on their own: %d/%d" % (run.cov["discharged"], run.cov["obligations"]))
+
 CASE_TYPES = {
     "check_weights": "(string * Z * list (string * Q))%type",
     "check_bins_float": "(list float * list (option float * list (option float)))%type",
@@ -774,7 +806,7 @@ def main():
     # step 1: proofs against the regenerated tables
     if ex is not None:
         run.log("tables regenerated from %s; re-checking the theorems (waits for coq/.lock if another check is building)" % vlib.repo_root())
-        run.check_proofs("Properties/C18.v", ["Proofs/CalTrackProofs.v"], generated=["Generated/CalTrackTables.v"])
+        run.check_proofs(PROP, PROOFS, generated=["Generated/CalTrackTables.v"])
         run.ensure_models(["Model/CalTrackRun.v", "Model/CasesLib.v"])
         run.log("theorems re-checked: %d/%d" % (run.cov["discharged"], run.cov["obligations"]))
         check_tables(run, ex)
@@ -805,6 +837,8 @@ def main():
         for k in range(1 if only or run.quick() else 10):
             results += stream_fit(run, (only or {}).get("seed", run.seed + k))
         run.log("fit done")
+    if not run.proof_ok:
+        table_free_theorems(run)
     if ex is not None:
         for stream, terms, meta, fn in results:
             compare(run, stream, terms, meta, fn, shard={"bins_float": 12, "bins_q": 12, "occupancy": 6, "how": 4}.get(stream, 200))
